@@ -1418,6 +1418,13 @@ func (req *Request) readBodyStream(r *bufio.Reader, maxBodySize int, getOnly, pr
 	return req.ContinueReadBodyStream(r, maxBodySize, preParseMultipartForm)
 }
 
+// hasUnreadBodyStream reports whether the request body is streamed from the
+// connection and has not been read up to the end of its framing.
+func (req *Request) hasUnreadBodyStream() bool {
+	rs, ok := req.bodyStream.(*requestStream)
+	return ok && !rs.drained()
+}
+
 // MayContinue returns true if the request contains
 // 'Expect: 100-continue' header.
 //
